@@ -73,6 +73,12 @@ def run_check(module_name, tier, seed, replay=None, workers=None):
         cases = [witness['case']]
     else:
         cases = module.plan(tier, seed)
+        # the small, targeted families first: when the machine is loaded and the per-worker budget cuts a run short,
+        # what is skipped belongs to the largest (general) family, whose counters have the widest margins
+        sizes = {}
+        for c in cases:
+            sizes[c.get('family', 'general')] = sizes.get(c.get('family', 'general'), 0) + 1
+        cases.sort(key=lambda c: sizes[c.get('family', 'general')])
         if os.environ.get('VERIF_FAMILY'):
             # development aid: one family of the plan only (no evidence written, floors not applied)
             cases = [c for c in cases if c.get('family', 'general') == os.environ['VERIF_FAMILY']]
